@@ -32,3 +32,34 @@ Proof. vm_compute. auto. Qed.
 Theorem C01_list_separators_separate : bad_separators sql_prog = [].
 Proof. exact separators_checked. Qed.
 Print Assumptions C01_list_separators_separate.
+
+(* ---- the expression fragment: the composition parse o lex o SQL, for all canonical operator-core trees of any depth ---- *)
+From Verif Require Import Base.Bytes Parse.ExprModel Parse.ExprFacts Parse.Spell Parse.RoundTrip Parse.Respell Parse.Canon Parse.Render.
+
+(* on EVERY tree of the expression fragment (19 node types) the GENERATED SQL() programs compute the simple recursive function
+   [render] (None = Go panics: operator string not in exprPrec's table, empty identifier), whatever unicode.IsPrint is *)
+Theorem C01_generated_printer_on_fragment : forall (is_print : N -> bool) (e : expr),
+  sql is_print schema sql_prog prec_table (to_tree e) = render is_print e.
+Proof. intros ip e. unfold sql. rewrite info_to_tree. reflexivity. Qed.
+Print Assumptions C01_generated_printer_on_fragment.
+
+(* positions never influence the printed text *)
+Theorem C01_printer_ignores_positions : forall (is_print : N -> bool) (e : expr), render is_print (strip e) = render is_print e.
+Proof. exact render_strip. Qed.
+Print Assumptions C01_printer_ignores_positions.
+
+(* parse o lex o SQL on the operator core: for every canonical tree e (any depth), if the tokens obtained by lexing the printed text
+   agree with the canonical spelling in kinds, values and literal text (hypothesis evaluated by the check on the real lexer's
+   output for every enumerated tree: same_tokensb), then the parser gives back e up to positions and prints the same text *)
+Theorem C01_fragment_roundtrip : forall (is_print : N -> bool) (e : expr) (ts : toks),
+  can 12 e -> same_tokens (spell e ++ [eof_tok]) ts ->
+  exists f e' r, P f (MBin BOr) ts = Ok (e', r) /\ strip e' = e /\ same_tokens [eof_tok] r /\
+                 render is_print e' = render is_print e /\
+                 sql is_print schema sql_prog prec_table (to_tree e') = sql is_print schema sql_prog prec_table (to_tree e).
+Proof. exact fragment_roundtrip. Qed.
+Print Assumptions C01_fragment_roundtrip.
+
+(* both hypotheses are decidable *)
+Theorem C01_canonical_is_checkable : forall n e, canb n e = true -> can n e.
+Proof. exact canb_ok. Qed.
+Print Assumptions C01_canonical_is_checkable.
